@@ -24,7 +24,9 @@ IsSpaceC(c) == c \in SpaceChars
 \* of another script are "exotic": a crd that treats those characters differently (blanks only ASCII, a BOM skipped, ...)
 \* still is what the statements describe, so for such texts the checks claim agreement only where both sides accept.
 PlainBlanks == {9, 10, 13, 32}
+\* (... and the control characters: nothing says whether a BEL or a NUL may stand in a symbol or a text)
 ExoticChars == (SpaceChars \ PlainBlanks) \cup {65279, 8203, 8204, 8205, 173, 8288} \cup (65296..65305) \cup (2406..2415) \cup (1632..1641)
+               \cup (0..8) \cup (14..31) \cup {127}
 Exotic(s) == \E i \in 1..Len(s) : s[i] \in ExoticChars
 \* blanks around a setting's name or value inside {...}: whether they belong to the token is not documented
 RECURSIVE TrimL(_)
